@@ -149,6 +149,8 @@ pub fn run_dispatch<N: AsRef<[Link]>>(
 
     let mut train_idxs_blocked = Vec::with_capacity(train_disps.len() / 2);
     let mut has_deadlock = false;
+    #[cfg(feature = "verif")]
+    let mut verif_iteration = 0usize;
     while !train_disp_queue.is_empty() {
         let train_idx_curr = train_disp_queue.pop().unwrap().train_idx;
 
@@ -175,6 +177,15 @@ pub fn run_dispatch<N: AsRef<[Link]>>(
                     train_idx_curr,
                     true,
                 )?;
+                #[cfg(feature = "verif")]
+                crate::verif_hooks::emit_dispatch(&crate::verif_hooks::DispatchSnapshot {
+                    phase: crate::verif_hooks::DispatchPhase::AfterAdvance,
+                    iteration: verif_iteration,
+                    train_idx_moved: train_idx_curr,
+                    link_disp_auths: &link_disp_auths,
+                    links_blocked: &links_blocked,
+                    train_disps: &train_disps,
+                });
                 let train_curr = &mut train_disps[train_idx_curr.idx()];
 
                 // If the train reaches the end of its path, break
@@ -207,6 +218,15 @@ pub fn run_dispatch<N: AsRef<[Link]>>(
                         train_idx_curr,
                         false,
                     )?;
+                    #[cfg(feature = "verif")]
+                    crate::verif_hooks::emit_dispatch(&crate::verif_hooks::DispatchSnapshot {
+                        phase: crate::verif_hooks::DispatchPhase::AfterRewind,
+                        iteration: verif_iteration,
+                        train_idx_moved: train_idx_curr,
+                        link_disp_auths: &link_disp_auths,
+                        links_blocked: &links_blocked,
+                        train_disps: &train_disps,
+                    });
                     assert!(
                         !has_deadlock,
                         "Train {:0width$} was rewound to the last known good position but there was still deadlock!",
@@ -246,10 +266,32 @@ pub fn run_dispatch<N: AsRef<[Link]>>(
                 debug_assert!(train_idx != train_idx_curr);
             });
         }
+        #[cfg(feature = "verif")]
+        {
+            verif_iteration += 1;
+            crate::verif_hooks::emit_dispatch(&crate::verif_hooks::DispatchSnapshot {
+                phase: crate::verif_hooks::DispatchPhase::EndOfIteration,
+                iteration: verif_iteration,
+                train_idx_moved: train_idx_curr,
+                link_disp_auths: &link_disp_auths,
+                links_blocked: &links_blocked,
+                train_disps: &train_disps,
+            });
+        }
     }
     if !train_idxs_blocked.is_empty() {
         bail!("The following trains got stuck! {:?}", train_idxs_blocked);
     }
+
+    #[cfg(feature = "verif")]
+    crate::verif_hooks::emit_dispatch(&crate::verif_hooks::DispatchSnapshot {
+        phase: crate::verif_hooks::DispatchPhase::Final,
+        iteration: verif_iteration,
+        train_idx_moved: None,
+        link_disp_auths: &link_disp_auths,
+        links_blocked: &links_blocked,
+        train_disps: &train_disps,
+    });
 
     Ok(train_disps[1..]
         .iter()
